@@ -907,6 +907,17 @@ class Raises:
                         codec.lower().replace('_', '-') not in (
                             'utf-8', 'utf8', 'utf-16', 'utf-32')):
                     excs = {'UnicodeEncodeError'}
+                    # a literal that the codec can represent
+                    rv = call.func.value if isinstance(
+                        call.func, ast.Attribute) else None
+                    if isinstance(rv, ast.Constant) and \
+                            isinstance(rv.value, str) and \
+                            isinstance(codec, str):
+                        try:
+                            rv.value.encode(codec)
+                            excs = set()
+                        except (UnicodeError, LookupError):
+                            pass
             if base == 'pop':
                 if kind == 'dict':
                     excs = {'KeyError'} if len(call.args) < 2 else set()
